@@ -8,7 +8,7 @@
 
 namespace B {
 
-struct BOp { uint16_t kind = 0; uint32_t a = 0, b = 0, c = 0; };
+struct BOp { uint16_t kind = 0; uint32_t a = 0, b = 0, c = 0; uint32_t fault = 0; };      // fault k > 0: the k-th allocation library code attempts inside this operation throws
 
 struct Plan {
     uint64_t seed = 0, pool_seed = 1, sched_seed = 1;
@@ -36,7 +36,7 @@ struct Viol { bool set = false; std::string cls, site, msg; };
 struct Totals {
     uint64_t runs = 0, events = 0, accesses = 0, preemptions = 0, switches = 0, ops = 0, sync_ops = 0;
     uint64_t strategy[5] = {0};     // serial, rare, medium, frequent preemption, window-targeted
-    uint64_t locale_runs = 0, libc_reads = 0, libc_writes = 0;   // runs under a non-"C" process locale; modelled accesses to process-wide libc state
+    uint64_t locale_runs = 0, libc_reads = 0, libc_writes = 0, alloc_faults_planned = 0, alloc_faults_fired = 0;   // runs under a non-"C" process locale; modelled accesses to process-wide libc state
 };
 struct RunResult { Viol viol; uint64_t sig = 0, sched_sig = 0; bool nontrivial = false; RunStats stats; std::vector<Switch> recorded; };
 RunResult run_plan(const Plan &p, Totals *tot);
